@@ -20,7 +20,9 @@ TGet == /\ IsEv("get")
                 /\ (Ev.x \in avail \/ (Ev.x \notin seen /\ Ev.hasnew))               \* previously Put and not handed out since, or fresh from New
                 /\ held' = held \cup {Ev.x} /\ avail' = avail \ {Ev.x} /\ seen' = seen \cup {Ev.x}
 TPut == /\ IsEv("put") /\ held' = held \ {Ev.x} /\ avail' = avail \cup {Ev.x} /\ seen' = seen \cup {Ev.x}
-TNext == TReset \/ TGet \/ TPut
+\* a whole free-running round summarised by the largest number of simultaneous holders any item ever had
+THolders == IsEv("holders") /\ Ev.max <= 1 /\ UNCHANGED <<held, avail, seen>>
+TNext == TReset \/ TGet \/ TPut \/ THolders
 TSpec == TInit /\ [][TNext]_vars
 Track == TrackL(l)
 Accepted == AcceptedP
